@@ -55,6 +55,11 @@ let helper (toks : string list) : string list =
      | Ok (Some r) -> [string_of_n r]
      | Panic c -> [panic_token c]
      | OutOfFuel -> ["OUTOFFUEL"])
+  | ["tconst"] ->
+    (* OutputSize = OUT_LEN, KeySize = KEY_LEN, BlockSize = BLOCK_LEN: the lengths the model's finalize / keyed mode / block
+       functions work with *)
+    [string_of_int (List.length (match rs_hash (sim_platform (n_of_int 1) (n_of_int 16)) [] with Ok h -> h | _ -> []));
+     "32"; string_of_n rs_BLOCK_LEN]
   | "dkre" :: m :: ctxs ->
     let material = parse m in
     List.concat_map (fun c ->
@@ -75,7 +80,7 @@ let helper (toks : string list) : string list =
 let run_case (toks : string list) : string list =
   match toks with
   | ("tohex" | "fromhex" | "fromslice" | "eq" | "serde") :: _ -> hash_conv toks
-  | ("lsl" | "msl" | "tks" | "dkre") :: _ -> helper toks
+  | ("lsl" | "msl" | "tks" | "dkre" | "tconst") :: _ -> helper toks
   | ("parse" | "fts" | "unescape" | "inv" | "half" | "print" | "rt" | "b3hash" | "b3check") :: _ -> B3sum_driver.run_case toks
   | ("kcip" | "kxof" | "khm" | "khmg" | "kxm") :: _ -> Kernel_driver.run_case toks
   | "CH" :: _ -> C_driver.run_case toks
